@@ -120,7 +120,8 @@ type Engine struct {
 	unknowns  int
 	poisonReads int
 	globals   map[*ssa.Global]*Value
-	pkgInit   map[*ssa.Package]int // 0 none, 1 running, 2 done
+	pkgInit   map[*ssa.Package]int // 0 none, 1 running, 2 done, 3 never (globals marked)
+	forceInit map[string]bool
 	sharedGlobals map[*ssa.Global]*Value
 	sharedInit    map[*ssa.Package]int
 	mapNondet bool
